@@ -5,6 +5,7 @@ from ..gen_surf import ELEMENTARY_FAMILIES, elementary
 from ..judge import convert_deck, crash_violation, region_agreement, summarise
 
 ID = 'C02'
+UPSTREAM_DECKS = True
 LEVEL = 'exploration'
 RULE = ('one generated surface card per case (every mnemonic x parameter '
         'family), deck = cells -s and +s clipped by a world sphere; distinct '
